@@ -11,6 +11,9 @@
 #[path = "../../corpus/basic.rs"]
 pub mod basic;
 
+#[path = "../../corpus/names.rs"]
+pub mod names;
+
 #[cfg(kani)]
 #[path = "../../corpus/shape_h.rs"]
 pub mod shape_h;
@@ -24,6 +27,7 @@ mod h {
     use crate::basic::ifb::sv::Executor as IfbExecutor;
     use crate::basic::ifb::Ifb;
     use crate::basic::CtErr;
+    use crate::names::nm::sv::Executor as NmExecutor;
     use crate::shape_h::{events_ok, HSpec};
     use support::env::one_char;
     use support::stubs::{bt_disabled, fmt_stub};
@@ -153,6 +157,18 @@ mod h {
     exec_helper!(exec_dyn_ib_x, true, dyn Ifb<Error = CtErr>, |eb, a, b, x| eb.ib_x(a & 1 == 1), H_IB_X, [(a & 1) as u64, 0, 0]);
     exec_helper!(exec_ct_as_ifa, true, Ct, |eb, a, b, x| IfaExecutor::ia_two(eb, a, b), H_IA_TWO, [a as u64, b as u64, 0]);
     exec_helper!(exec_ct_as_ifb, true, Ct, |eb, a, b, x| IfbExecutor::ib_x(eb, a & 1 == 1), H_IB_X, [(a & 1) as u64, 0, 0]);
+
+    // argument-less helpers of corpus `names`: identifiers with digits / unusual underscores.  The helper's
+    // own name follows another casing rule than the wire name; the BODY must be the message of that
+    // method (wire names as published: a1_b2, x1, r2_d2_x9, swap_a_b; helpers a_1_b_2, x_1, r_2_d_2_x_9, swap_ab), so that the target routes it.
+    const H_A1B2: HSpec = HSpec { name: "a1_b2", args: &[] };
+    const H_X1: HSpec = HSpec { name: "x1", args: &[] };
+    const H_R2D2: HSpec = HSpec { name: "r2_d2_x9", args: &[] };
+    const H_SWAP: HSpec = HSpec { name: "swap_a_b", args: &[] };
+    exec_helper!(exec_nm_a1b2, false, crate::names::nm::Nm, |eb, a, b, x| NmExecutor::a_1_b_2(eb), H_A1B2, [0u64; 3]);
+    exec_helper!(exec_nm_x1, true, crate::names::nm::Nm, |eb, a, b, x| NmExecutor::x_1(eb), H_X1, [0u64; 3]);
+    exec_helper!(exec_nm_r2d2, false, crate::names::nm::Nm, |eb, a, b, x| NmExecutor::r_2_d_2_x_9(eb), H_R2D2, [0u64; 3]);
+    exec_helper!(exec_nm_swap, false, crate::names::nm::Nm, |eb, a, b, x| NmExecutor::swap_ab(eb), H_SWAP, [0u64; 3]);
 
     /// Remote -> ExecutorBuilder keeps the (symbolic) address and starts without funds; owned and
     /// borrowed handles.
